@@ -248,7 +248,7 @@ func (g *genState) paramValue(i int, name string) Arg {
 		}
 		switch choice.Pick(src, "chunk", opts) {
 		case "lit":
-			cs = append(cs, Chunk{Kind: "lit", S: choice.Pick(src, "chunklit", []string{":", "http://", "-", "a", " "})})
+			cs = append(cs, Chunk{Kind: "lit", S: choice.Pick(src, "chunklit", []string{":", "http://", "-", "a", " ", "say \"hi ", "5\" tall, ", "it's ", "(", "\\", "\""})})
 		case "pct":
 			cs = append(cs, Chunk{Kind: "pct"})
 		case "ref":
@@ -311,7 +311,7 @@ func (g *genState) depArg(nsvc int, allowSvc bool) Arg {
 		return Arg{Kind: "pattern", Chunks: []Chunk{{Kind: "ref", S: g.cfg.Params[src.Draw("apref", len(g.cfg.Params))].Name}}}
 	case "pattern":
 		return Arg{Kind: "pattern", Chunks: []Chunk{
-			{Kind: "lit", S: choice.Pick(src, "aplit", []string{"pre-", "x=", ""})},
+			{Kind: "lit", S: choice.Pick(src, "aplit", []string{"pre-", "x=", "", "Welcome \"", "it's ", "("})},
 			{Kind: "ref", S: g.cfg.Params[src.Draw("apref", len(g.cfg.Params))].Name},
 		}}
 	case "value":
